@@ -155,6 +155,9 @@ def c20_rf21(run):
     run.min_instances('RF60', 2)
     rf_mir2c.rf61(run)
     run.min_instances('RF61', 40)
+    rf_mir2c.rf92(run)
+    run.min_instances('RF92', 10)
+    rf_mir2c.rf93(run)
     run.min_instances('RF21', 8)
     rf_vocab.rf37(run, 'mir2c', ('MIR_module2c',))
     run.min_instances('RF37', 3)
